@@ -101,8 +101,9 @@ impl ClientHello {
 
 impl Default for ClientHello {
     fn default() -> Self {
-        const CAPABILITIES: &[Capability] =
-            &[Capability::Base(Base::V1_0), Capability::Base(Base::V1_1)];
+        // Only `:base:1.0` is advertised: RFC 6242 requires chunked framing once both peers
+        // advertise `:base:1.1`, and the transports only implement end-of-message framing.
+        const CAPABILITIES: &[Capability] = &[Capability::Base(Base::V1_0)];
         Self::new(CAPABILITIES)
     }
 }
